@@ -415,6 +415,27 @@ def metric_case(p, res):
                     v("metric-agrees", f"{'complex' if cplx else 'real'} P={sp}, true SNR {ref:.4f} dB: calculate_snr={a:.4f}, SignalToNoiseRatio={b:.4f}, linear mode={c:.5g}")
                 if tuple(bb.shape) != (4,) or max(abs(float(t) - r) for t, r in zip(bb, refb)) > 1e-2:
                     v("metric-agrees", f"batched SignalToNoiseRatio {bb.tolist()} vs per-row reference {refb}")
+        # complex signals whose power is NOT split evenly between real and imaginary part (BPSK / PAM stored in a complex tensor, purely
+        # imaginary, I/Q-unbalanced), batched and un-batched: |x|^2 = re^2 + im^2 in every branch of every tool
+        if cplx:
+            i = torch.arange(N, dtype=torch.float64)
+            re = torch.cos(0.37 * i + 0.1) * math.sqrt(2.0)
+            im = torch.sin(0.53 * i) * math.sqrt(2.0)
+            nzr = torch.complex(0.3 * torch.cos(1.7 * i + 0.3), 0.2 * torch.sin(0.9 * i)).to(torch.complex64)
+            for nm, xs_ in (("real-only", torch.complex(re, 0 * re)), ("imag-only", torch.complex(0 * im, im)), ("unbalanced", torch.complex(re, 0.2 * im))):
+                x = xs_.to(torch.complex64)
+                y = x + nzr
+                for lay, xx, yy in (("1d", x, y), ("4xN", x.reshape(4, -1), y.reshape(4, -1)), ("2x2xN", x.reshape(2, 2, -1), y.reshape(2, 2, -1))):
+                    refs = [10 * math.log10(float((xr.abs().double() ** 2).mean()) / float(((yr - xr).abs().double() ** 2).mean()))
+                            for xr, yr in (zip(xx, yy) if lay != "1d" else [(xx, yy)])]
+                    got = SignalToNoiseRatio()(xx, yy).reshape(-1).tolist()
+                    lin = SignalToNoiseRatio(mode="linear")(xx, yy).reshape(-1).tolist()
+                    cs = calculate_snr(xx, yy, dim=tuple(range(1, xx.dim())) if lay != "1d" else None).reshape(-1).tolist()
+                    res.ev(3, nontrivial=3, transitions=3)
+                    if len(got) != len(refs) or max(abs(a_ - b_) for a_, b_ in zip(got, refs)) > 1e-2 or max(abs(10 * math.log10(max(a_, 1e-30)) - b_) for a_, b_ in zip(lin, refs)) > 1e-2:
+                        v("metric-agrees", f"{nm} complex signal, layout {lay}: SignalToNoiseRatio {[round(t_, 3) for t_ in got]} dB / linear {[round(t_, 4) for t_ in lin]} vs true {[round(t_, 3) for t_ in refs]} dB")
+                    if len(cs) != len(refs) or max(abs(a_ - b_) for a_, b_ in zip(cs, refs)) > 1e-2:
+                        v("metric-agrees", f"{nm} complex signal, layout {lay}: calculate_snr {[round(t_, 3) for t_ in cs]} vs true {[round(t_, 3) for t_ in refs]} dB")
         # channel output measured with both tools returns the configured SNR
         for snr in SNRS:
             x = signal(2 ** 14, 1.0, cplx, 0)
